@@ -28,7 +28,7 @@ RULE = ('(a) library level: systems of 1-8 molecules built from 1-4 templates (2
         'deduplication; written with write_pdb, write_gro and write_gmx_topology. (b) the real CLI on homo-/hetero-'
         'oligomers assembled from test structures (copies translated / conformationally perturbed), with -elastic, '
         '-resid input, -sep, -merge. Non-trivial = >= 3 molecules, >= 2 sharing a name, not all adjacent. distinct = '
-        'distinct system hashes / CLI scenarios. Also: near-copies with two keys swapped (same key set, same attributes position by position); residue numbers 0 and negative; CLI scenarios with two merged chain pairs whose chain identifiers sort differently (A+B, D+C).')
+        'distinct system hashes / CLI scenarios. Also: near-copies with two keys swapped (same key set, same attributes position by position); residue numbers 0 and negative; CLI scenarios with two merged chain pairs whose chain identifiers sort differently (A+B, D+C); near-copies with surplus / missing trailing interactions, an integer field off by one on six-to-eight digit numbers, a charge or mass differing in the 6th-9th digit.')
 ASSUMPTIONS = ['citation/header/comment text is ignored', 'molecules that differ only in position, chain, graph or '
                'mapping_weights may share a type', 'PDB fields are compared modulo the column truncation of the format']
 MIN_HITS = {'quick': 600, 'thorough': 25000}
@@ -70,12 +70,21 @@ def gen_template(rnd, ti):
             continue
         inter.append([t, rnd.sample(keys, ar), [rnd.choice(['1', '2']), rnd.choice(['0.47', '0.33', '120']), rnd.choice(['1250', '25'])],
                       {'version': 1} if rnd.random() < 0.1 else {}])
-    return {'atoms': atoms, 'inter': inter, 'nrexcl': 1, 'define': {}, 'tpl': ti}
+    big = rnd.random() < 0.15
+    if big:
+        # residue numbers / charge groups of six digits and more (a solvent molecule deep into a large system; -resid input)
+        off = rnd.choice([99990, 100000, 250000, 10 ** 6, 3 * 10 ** 7])
+        cgoff = rnd.choice([0, off])
+        for k, a in atoms:
+            a['resid'] += off
+            a['charge_group'] += cgoff
+    return {'atoms': atoms, 'inter': inter, 'nrexcl': 1, 'define': {}, 'tpl': ti, 'big': big}
 
 
 def near_copy(rnd, tpl):
     m = copy.deepcopy(tpl)
-    kind = rnd.choice(['exact', 'exact', 'position-only', 'charge', 'mass', 'param', 'meta', 'node-order', 'key-swap', 'key-swap', 'atomid', 'define', 'nrexcl', 'param-eps', 'param-eps', 'inter-surplus', 'inter-surplus', 'inter-short', 'inter-order'])
+    kind = rnd.choice(['exact', 'exact', 'position-only', 'charge', 'mass', 'param', 'meta', 'node-order', 'key-swap', 'key-swap', 'atomid', 'define', 'nrexcl', 'param-eps', 'param-eps', 'inter-surplus', 'inter-surplus', 'inter-short', 'inter-order',
+                       'int-plus-one', 'int-plus-one', 'float-eps'])
     if kind == 'charge':
         a = rnd.choice(m['atoms'])[1]
         a['charge'] = a['charge'] + 0.5
@@ -91,6 +100,16 @@ def near_copy(rnd, tpl):
         it[2][1] = float(it[2][1]) * (1 + rnd.choice([1e-7, -3e-7, 2e-6]))
     elif kind == 'meta' and m['inter']:
         rnd.choice(m['inter'])[3]['ifdef'] = 'FLEX'
+    elif kind == 'int-plus-one':
+        # an integer field (residue number, charge group) that differs by one; the template may carry large numbers (m['big'])
+        a = rnd.choice(m['atoms'])[1]
+        f = rnd.choice(['resid', 'charge_group'])
+        a[f] = a[f] + 1
+    elif kind == 'float-eps':
+        # a charge or mass that differs in the 6th-9th significant digit: another number in the written file
+        a = rnd.choice(m['atoms'])[1]
+        f = rnd.choice(['charge', 'mass'])
+        a[f] = a[f] * (1 + rnd.choice([1e-6, -2e-6, 4e-5, 1e-4])) + rnd.choice([0, 0, 1e-9, 1e-7])
     elif kind == 'inter-surplus' and m['inter']:
         # the lists agree position by position, but this molecule has more entries at the end of a list that exists in both
         # (one rubber band more in a nearly identical conformation)
@@ -178,6 +197,38 @@ def itp_alone(mol, name):
     return '\n'.join(l for l in buf.getvalue().split('\n') if not l.startswith(';'))
 
 
+def only_floats_within_tolerance(txt, t0):
+    """True iff the two ITP texts differ only in charge / mass fields of [ atoms ] rows, and every differing pair of numbers is
+    equal under numpy.isclose's default tolerances (|a - b| <= 1e-8 + 1e-5 |b|, either way round)."""
+    la, lb = txt.split('\n'), t0.split('\n')
+    if len(la) != len(lb):
+        return False
+    section = None
+    seen = False
+    for x, y in zip(la, lb):
+        if x.strip().startswith('['):
+            section = x.strip().strip('[] ')
+        if x == y:
+            continue
+        tx, ty = x.split(), y.split()
+        if section != 'atoms' or len(tx) != len(ty):
+            return False
+        for c, (u, v) in enumerate(zip(tx, ty)):
+            if u == v:
+                continue
+            if c not in (6, 7):
+                return False
+            try:
+                fu, fv = float(u), float(v)
+            except ValueError:
+                return False
+            d = abs(fu - fv)
+            if not (d <= 1e-8 + 1e-5 * abs(fv) or d <= 1e-8 + 1e-5 * abs(fu)):
+                return False
+            seen = True
+    return seen
+
+
 def check_files(workdir, molecule_sizes_hint=None, top='topol.top', pdb='out.pdb', gro=None):
     """Cross-file agreement on the files found in workdir. -> (problem | None, info)"""
     with open(os.path.join(workdir, top)) as f:
@@ -240,11 +291,18 @@ def check_library(case, b):
     b.hits += 1
     # (iv) same name => identical topology text when written alone
     first = {}
+    soft = None
     for i, (m, n) in enumerate(zip(system.molecules, names)):
         txt = itp_alone(m, n)
         if n in first:
             j, t0 = first[n]
             if txt != t0:
+                if only_floats_within_tolerance(txt, t0):
+                    # known finding: the comparison that decides on sharing a name uses numpy.isclose for floats
+                    soft = soft or ('moltype/shared-name-floats-within-isclose-tolerance',
+                                    {'molecules': [j, i], 'moltype': n, 'variant': case['mols'][i].get('variant'),
+                                     'diff': [l for l in txt.split('\n') if l not in t0.split('\n')][:4]})
+                    continue        # recorded; everything else is still checked on this system
                 return ('moltype/shared-name-different-topology',
                         {'molecules': [j, i], 'moltype': n, 'variant': case['mols'][i].get('variant'),
                          'diff': [l for l in txt.split('\n') if l not in t0.split('\n')][:4]}), names
@@ -282,7 +340,7 @@ def check_library(case, b):
     finally:
         os.chdir(cwd)
         shutil.rmtree(work, ignore_errors=True)
-    return None, names
+    return soft, names
 
 
 # ------------------------------------------------------------------ (b) CLI scenarios
